@@ -67,7 +67,7 @@ Section Parse.
         else if N.eqb c 116 then Some (EscLit 9, s')           (* \t *)
         else if N.eqb c 118 then Some (EscLit 11, s')          (* \v *)
         else if N.eqb c 102 then Some (EscLit 12, s')          (* \f *)
-        else if N.eqb c 32 then (if x then Some (EscLit 32, s') else None)   (* "\ " only under (?x) *)
+        else if N.eqb c 32 then Some (EscLit 32, s')           (* "\ " *)
         else if mem_cp c [100; 68; 115; 83; 119; 87]%N then Some (EscPerl c, s')
         else if N.eqb c 117 then                               (* \u{h..} or \uHHHH *)
           match s' with
@@ -160,21 +160,22 @@ Section Parse.
     end.
 
   (* {n} {m,n} {n,} — after '{' *)
+  Definition trim_ws (s : str) : str := snd (take_while is_ws s).
   Definition parse_counted (x : bool) (s : str) : option (N * option N * str) :=
-    let s := bump x s in
+    let s := trim_ws (bump x s) in
     let '(d1, r1) := take_while is_digit s in
     match d1 with
     | [] => None
     | _ =>
         let lo := num_of 10 (fun d => (d - 48)%N) d1 in
-        let r1 := bump x r1 in
+        let r1 := bump x (trim_ws r1) in
         match r1 with
         | c :: r2 =>
             if N.eqb c 125 then Some (lo, Some lo, r2)
             else if N.eqb c 44 then
-              let r2 := bump x r2 in
+              let r2 := trim_ws (bump x r2) in
               let '(d2, r3) := take_while is_digit r2 in
-              let r3 := bump x r3 in
+              let r3 := bump x (trim_ws r3) in
               match r3 with
               | e :: r4 =>
                   if N.eqb e 125 then
